@@ -1403,6 +1403,18 @@ class ConcreteCtx:
         return self
 
 
+def reraise_if_proxy_limitation(e):
+    """An exception that stems from the proxies / the np facade not supporting an operation (not from the code's logic)
+    must never be reported as a violation of the property: it makes the run inconclusive."""
+    if isinstance(e, (TypeError, NotImplementedError, HarnessError)):
+        msg = str(e)
+        if isinstance(e, (NotImplementedError, HarnessError)) or any(
+                k in msg for k in ("ufunc", "'Q'", "Q<", "Q(", "LazyAbs", "Angle", "FTok", "SymLine", "object arrays",
+                                   "not supported for the input types", "unsupported operand", "must be real number",
+                                   "cannot be interpreted", "loop of ufunc")):
+            raise Inconclusive(f"proxy/facade limitation, not a property verdict: {type(e).__name__}: {msg[:300]}")
+
+
 def perm(M):
     """Leibniz permanent of a square list-of-lists (independent oracle)."""
     n = len(M)
